@@ -260,6 +260,8 @@ pub enum AOp {
     /// n consecutive awaits of function i under the current installation ("any number of times")
     Burst { i: u8, n: u16 },
     EndLifetime,
+    /// the injector goes out of scope because a panic unwinds through the scope that owns it
+    EndLifetimeUnwind,
 }
 
 #[derive(Serialize, Deserialize, Clone, Debug, Hash, PartialEq, Eq)]
@@ -395,6 +397,18 @@ pub fn execute(c: &AsyncCase) -> AsyncObs {
                 }
                 nfakes = [0; N_FNS];
             }
+            AOp::EndLifetimeUnwind => {
+                crate::worker::phase("drop");
+                if let Some(i) = inj.take() {
+                    let _ = std::panic::catch_unwind(std::panic::AssertUnwindSafe(move || {
+                        ip::sut(move || {
+                            let _scope = i;
+                            panic!("user panic at the end of the scope");
+                        })
+                    }));
+                }
+                nfakes = [0; N_FNS];
+            }
         }
     }
     o
@@ -405,7 +419,7 @@ pub fn strategy() -> impl Strategy<Value = AsyncCase> {
         3 => (0u8..N_FNS as u8, any::<u32>()).prop_map(|(i, v)| AOp::Fake { i, v: v % 900_000 }),
         5 => (0u8..N_FNS as u8, any::<u16>(), 0u8..4).prop_map(|(i, arg, thread)| AOp::Await { i, arg, thread }),
         1 => (0u8..N_FNS as u8, prop_oneof![2 => 2u16..40, 2 => 120u16..300, 1 => 300u16..600]).prop_map(|(i, n)| AOp::Burst { i, n }),
-        1 => Just(AOp::EndLifetime),
+        1 => prop_oneof![2 => Just(AOp::EndLifetime), 1 => Just(AOp::EndLifetimeUnwind)],
     ];
     (prop::collection::vec(op, 1..=24), 0u8..N_FNS as u8).prop_map(|(ops, focus)| {
         // concentrate on a window of 4 functions so that fakes and awaits meet
@@ -480,9 +494,12 @@ pub fn judge(rec: &mut Recorder, c: &AsyncCase, ex: Exec, _hello: &Value) -> Res
                 current[i] = Some((nfakes[i] % 2, *v as u64));
                 nfakes[i] += 1;
             }
-            AOp::EndLifetime => {
+            AOp::EndLifetime | AOp::EndLifetimeUnwind => {
                 if current.iter().any(|c| c.is_some()) && k + 1 + N_FNS < ops.len() {
                     lifetimes += 1;
+                }
+                if *op == AOp::EndLifetimeUnwind && current.iter().any(|c| c.is_some()) {
+                    rec.class("lifetime-with-fakes-ended-by-unwinding");
                 }
                 current = [None; N_FNS];
                 nfakes = [0; N_FNS];
